@@ -185,7 +185,7 @@ variable (rt : RTab) (g : Group) (req : Req)
 /-- The not-found outcome of a group on `path`. -/
 def Group.notFoundCall (g : Group) (path : Bytes) : ServeRes :=
   .call { handler := g.notFound, node := none, ok := false, params := [], routerName := [],
-          respHeaders := [], headWrap := false, path := path, recover := g.recover }
+          respHeaders := [], headWrap := false, path := path, recover := g.recover, recActs := g.recActs }
 
 theorem go_nil (path : Bytes) : Group.serve.go env tab rt g req [] path = g.notFoundCall path := by
   rw [Group.serve.go]; rfl
